@@ -195,6 +195,29 @@ def r14_intern(sig, body):
     return sig, body, n
 
 
+def r15_ref_pattern(sig, body):
+    """R15: `for &x in E { B }` -> `for __rN in E { let x = *__rN; B }` (Verus has no ref patterns; x is Copy)"""
+    n = 0
+    while True:
+        hit = None
+        for kind, kw, ob, cb in rsx.find_loops(body):
+            if kind != 'for':
+                continue
+            m = re.match(r'for\s+&(\w+)\s+in\s+', body[kw:ob])
+            if m:
+                hit = (m, kw, ob)
+                break
+        if not hit:
+            break
+        m, kw, ob = hit
+        r = '__r%d' % n
+        hdr = body[kw:ob]
+        new_hdr = 'for %s in ' % r + hdr[m.end():]
+        body = body[:kw] + new_hdr + '{ let %s = *%s;' % (m.group(1), r) + body[ob + 1:]
+        n += 1
+    return sig, body, n
+
+
 RULES = {
     'R1': r1_error_macro,
     'R3': r3_continue_guard,
@@ -205,6 +228,7 @@ RULES = {
     'R11': r11_common_prefix,
     'R12': r12_std_paths,
     'R13': r13_format,
+    'R15': r15_ref_pattern,
     'R14': r14_intern,
 }
 
